@@ -137,6 +137,14 @@ Definition emit (e : tev) (s : S) : S := set_tr (s_tr s ++ [e]) s.
 (* gorm.go AddError: db.Error = err, or fmt.Errorf("%v; %w", db.Error, err) *)
 Definition add_err (e : err) (s : S) : S := set_err (s_err s ++ [e]) s.
 
+(* options of an operation that only some generated inputs use *)
+Record opts := mk_opts {
+  x_setall : bool;       (* hooks call SetColumn(name, v, true): "from callbacks", every record of a slice is set *)
+  x_delassoc : Z;        (* Delete with Select(<has-many>): 0 none, 1 Kids, 2 Pets *)
+  x_preload : bool       (* Find / First with Preload("Kids").Preload("Pets") *)
+}.
+Definition no_opts := mk_opts false 0 false.
+
 (* ------------------------------------------------------------------ the context of one pipeline *)
 Record cx := mk_cx {
   c_ty : ty; c_shape : shape; c_table : table;
@@ -144,6 +152,7 @@ Record cx := mk_cx {
   c_skipdef : bool;             (* Config.SkipDefaultTransaction *)
   c_dest : dest;
   c_fails : list Z; c_sets : list Z; c_setkey : pkey;
+  c_x : opts;
   c_keep : bool                 (* association save: ON CONFLICT DO NOTHING / DO UPDATE of the foreign key only —
                                    a row that already exists keeps its values (associations.go onConflictOption) *)
 }.
@@ -161,7 +170,13 @@ Fixpoint set_nth_val (i : nat) (v : Z) (l : list mrec) : list mrec :=
 Definition map_set (key : pkey) (v : Z) (m : list (pkey * Z)) : list (pkey * Z) :=
   (key, v) :: filter (fun _ => false) m.
 
-(* statement.go SetColumn(name, value) called from a hook while record [i] is current *)
+Definition set_all_val (v : Z) (l : list mrec) : list mrec :=
+  map (fun r => mk_rec (m_id r) (m_tag r) v (m_nil r)) l.
+
+(* statement.go SetColumn(name, value[, fromCallbacks]) called from a hook while record [i] is current *)
+Definition set_rec_val (c : cx) (i : nat) (v : Z) (l : list mrec) : list mrec :=
+  if x_setall (c_x c) then set_all_val v l else set_nth_val i v l.
+
 Definition set_column (c : cx) (i : nat) (v : Z) (s : S) : S :=
   match c_dest c with
   | DMap => set_pay (map_set (c_setkey c) v (s_pay s)) s
@@ -170,13 +185,13 @@ Definition set_column (c : cx) (i : nat) (v : Z) (s : S) : S :=
       match sh_cont (c_shape c) with
       | CStruct => if sh_outer_ptr (c_shape c) then set_recs (set_nth_val 0 v (s_recs s1)) s1
                    else add_err EInvalidValue s1
-      | _ => set_recs (set_nth_val i v (s_recs s1)) s1
+      | _ => set_recs (set_rec_val c i v (s_recs s1)) s1
       end
   | DSelf =>
       match sh_cont (c_shape c) with
       | CStruct => if sh_outer_ptr (c_shape c) then set_recs (set_nth_val 0 v (s_recs s)) s
                    else add_err EInvalidValue s
-      | _ => set_recs (set_nth_val i v (s_recs s)) s
+      | _ => set_recs (set_rec_val c i v (s_recs s)) s
       end
   end.
 
@@ -334,7 +349,7 @@ Definition stmt_query (c : cx) (first : bool) (limit : Z) (s : S) : S :=
    starts with an error runs nothing and hands the same error back, which AddError appends again. *)
 Definition assoc_cx (c : cx) (t : ty) (tb : table) (single : bool) : cx :=
   mk_cx t (mk_shape (if single then CStruct else CSlice) true true) tb (c_skip c) (c_skipdef c) DSelf
-        (c_fails c) (c_sets c) (c_setkey c) true.
+        (c_fails c) (c_sets c) (c_setkey c) (c_x c) true.
 
 (* the create pipeline without associations of its own (Boss / Kid / Pet have none) *)
 Definition leaf_create (c : cx) (s : S) : S :=
@@ -370,6 +385,54 @@ Definition save_after_assoc (c : cx) (a : assocs) (s : S) : S :=
   if is_nil (s_err s)
   then save_assoc c (snd (a_tys a)) TPets false (a_pets a)
          (save_assoc c (snd (fst (a_tys a))) TKids false (a_kids a) s)
+  else s.
+
+(* ------------------------------------------------------------------ Delete with Select(<has-many>), Preload *)
+(* rows of association tables seeded by the harness carry their owner in the tag: owner * 1000 + j *)
+Definition owner_of (tag : Z) : Z := tag / 1000.
+Definition owned_by (owners : list Z) (t : table) (r : row) : bool :=
+  table_eqb (fst (fst r)) t && memz (owner_of (snd (fst r))) owners.
+
+Definition nested_cx (c : cx) (t : ty) (tb : table) (sh : shape) : cx :=
+  mk_cx t sh tb (c_skip c) (c_skipdef c) DSelf (c_fails c) (c_sets c) (c_setkey c) (c_x c) false.
+
+(* callbacks/delete.go DeleteBeforeAssociations, has-many: tx := db.Session(&Session{NewDB:true}).Model(new(T));
+   tx.Clauses(Where{owner IN parents}).Delete(new(T)): the delete pipeline on ONE blank in-memory record *)
+Definition nested_delete (c : cx) (t : ty) (tb : table) (s : S) : S :=
+  let cc := nested_cx c t tb (mk_shape CStruct true false) in
+  let owners := map m_tag (s_recs s) in
+  let s0 := mkS (s_k s) (s_err s) (s_tr s) [mk_rec 0 0 0 false] [] 0 (s_pool s) (s_ntx s) false (s_tbl s) (s_snap s) in
+  let s1 := hooks_phase cc PBeforeDelete (begin_tx cc s0) in
+  let s2 := if is_nil (s_err s1)
+            then set_tbl (filter (fun r => negb (owned_by owners tb r)) (s_tbl s1)) (emit (TStmt VDelete tb (s_pool s1)) s1)
+            else s1 in
+  let s3 := commit_or_rollback cc (hooks_phase cc PAfterDelete s2) in
+  let e := if is_nil (s_err s3) then s_err s else s_err s ++ s_err s3 in
+  mkS (s_k s3) e (s_tr s3) (s_recs s) (s_pay s) (s_payS s) (s_pool s3) (s_ntx s3) (s_started s) (s_tbl s3) (s_snap s3).
+
+Definition delete_before_assoc (c : cx) (a : assocs) (s : S) : S :=
+  if is_nil (s_err s) && negb (is_nil (s_recs s)) then
+    if x_delassoc (c_x c) =? 1 then nested_delete c (snd (fst (a_tys a))) TKids s
+    else if x_delassoc (c_x c) =? 2 then nested_delete c (snd (a_tys a)) TPets s
+    else s
+  else s.
+
+(* callbacks/preload.go: for each preloaded relation (sorted by name: Kids, Pets) a Find of the rows owned
+   by the loaded records into a slice, AfterFind per loaded child; an error stops the remaining preloads *)
+Definition nested_query (c : cx) (t : ty) (tb : table) (s : S) : S :=
+  if negb (is_nil (s_err s)) then s else
+  let cc := nested_cx c t tb (mk_shape CSlice true false) in
+  let owners := map m_tag (s_recs s) in
+  let rows := fold_right insert_by_tag [] (filter (owned_by owners tb) (s_tbl s)) in
+  let recs := map (fun r => mk_rec (snd (fst r)) (snd (fst r)) (snd r) false) rows in
+  let s0 := mkS (s_k s) (s_err s) (s_tr s ++ [TStmt VSelect tb (s_pool s)]) recs [] 0 (s_pool s) (s_ntx s) false (s_tbl s) (s_snap s) in
+  let s1 := hooks_phase cc PAfterFind s0 in
+  let e := if is_nil (s_err s1) then s_err s else s_err s ++ s_err s1 in
+  mkS (s_k s1) e (s_tr s1) (s_recs s) (s_pay s) (s_payS s) (s_pool s1) (s_ntx s1) (s_started s) (s_tbl s1) (s_snap s1).
+
+Definition preload_cb (c : cx) (a : assocs) (s : S) : S :=
+  if x_preload (c_x c) && is_nil (s_err s) && negb (is_nil (s_recs s))
+  then nested_query c (snd (a_tys a)) TPets (nested_query c (snd (fst (a_tys a))) TKids s)
   else s.
 
 (* ------------------------------------------------------------------ the pipelines *)
@@ -429,7 +492,9 @@ Definition run_cb (c : cx) (a : assocs) (q : qarg) (x : cb) (s : S) : S :=
   | CbUpdate => stmt_update c s
   | CbDelete => stmt_delete c s
   | CbQuery => stmt_query c (q_first q) (q_limit q) s
-  | CbSetupReflectValue | CbDeleteBeforeAssoc | CbPreload => s
+  | CbDeleteBeforeAssoc => delete_before_assoc c a s
+  | CbPreload => preload_cb c a s
+  | CbSetupReflectValue => s
   end.
 
 (* callbacks.go processor.Execute: every callback is called, each guards itself *)
@@ -444,12 +509,12 @@ Inductive payvia := PVMapDb | PVMapField | PVStruct.
 Record op := mk_op {
   o_kind : okind; o_ty : ty; o_shape : shape; o_recs : list mrec; o_assocs : assocs;
   o_skip : bool; o_txmode : txmode; o_fails : list Z; o_sets : list Z; o_setkey : pkey;
-  o_pay : Z; o_payvia : payvia; o_limit : Z; o_seed : list row
+  o_pay : Z; o_payvia : payvia; o_limit : Z; o_seed : list row; o_x : opts
 }.
 
 Definition op_cx (o : op) (skip : bool) (d : dest) : cx :=
   mk_cx (o_ty o) (o_shape o) TRecs skip (match o_txmode o with TxSkipDefault => true | _ => false end) d
-        (o_fails o) (o_sets o) (o_setkey o) false.
+        (o_fails o) (o_sets o) (o_setkey o) (o_x o) false.
 
 Definition init_state (o : op) : S :=
   let pay := match o_payvia o with PVMapDb => [(KDb, o_pay o)] | PVMapField => [(KField, o_pay o)] | PVStruct => [] end in
@@ -492,7 +557,7 @@ Fixpoint chunks (fuel : nat) (b : nat) (l : list mrec) : list (list mrec) :=
 Definition batch_cx (o : op) : cx :=
   let c := op_cx o (o_skip o) DSelf in
   mk_cx (c_ty c) (mk_shape CSlice false (sh_elem_ptr (o_shape o))) (c_table c) (c_skip c) (c_skipdef c) DSelf
-        (c_fails c) (c_sets c) (c_setkey c) false.
+        (c_fails c) (c_sets c) (c_setkey c) (c_x c) false.
 
 Definition run_batch (o : op) (ch : list mrec) (s : S) : S :=
   set_recs (s_recs s) (run_pipeline (batch_cx o) (no_assocs (a_tys (o_assocs o))) (mk_qarg false 0) create_pipeline (set_recs ch s)).
